@@ -128,6 +128,8 @@ def gen_op(rng, cfg, st, profile):
         n = rng.randint(1, st['depth'])
         op['n'] = n
         st['depth'] -= n
+        # what leaves the block: an ordinary exception, or one that is not an Exception subclass
+        op['exc'] = rng.choice(['RuntimeError', 'RuntimeError', 'RuntimeError', 'KeyboardInterrupt', 'SystemExit'])
     elif m == 'reset':
         key = rng.choice(['cull_limit', 'size_limit'])
         op['key'] = key
